@@ -529,7 +529,8 @@ def orderby(t, cx, sorted_scan=False):
     if op == 'limit':
         return orderby(t[3], cx, sorted_scan)
     if op == 'mergejoin':
-        return orderby(t[6], cx, sorted_scan)
+        # only a join that pads no unmatched left row keeps the right input's order (C12-R4 ties this set to the Rust arm)
+        return orderby(t[6], cx, sorted_scan) if t[1] in ('inner', 'right_outer') else ()
     if op == 'sortagg':
         return orderby(t[3], cx, sorted_scan)
     return ()
